@@ -138,6 +138,9 @@ func toSVal(v Value, st *State) SVal {
 		return SPtr{x.Obj.Ref, x.Obj.Ty, st}
 	case VStruct:
 		return SStruct{x, st}
+	case PArr:
+		// an array living in a heap region (array field of an object, local array): viewed as a slice
+		return sliceToS(VSlice{Reg: x.Reg, Off: x.Off, Len: BVInt(x.Ty.N, 64), Cap: BVInt(x.Ty.N, 64), Ty: &STy{K: TSlice, Elem: x.Ty.Elem}}, st)
 	case PGlobal:
 		return toSVal(st.globals[x.G], st)
 	}
@@ -573,6 +576,9 @@ func (ev *Env) bin(x *EBin) SVal {
 		}
 	case SIface:
 		rv, ok := r.(SIface)
+		if rp, isP := r.(SPtr); isP {
+			rv, ok = SIface{rp.Ref}, true
+		}
 		if !ok {
 			sfail("iface %s non-iface", x.Op)
 		}
@@ -584,6 +590,9 @@ func (ev *Env) bin(x *EBin) SVal {
 		}
 	case SPtr:
 		rv, ok := r.(SPtr)
+		if ri, isI := r.(SIface); isI {
+			rv, ok = SPtr{Ref: ri.T}, true // comparison with nil / an interface identity
+		}
 		if !ok {
 			sfail("ptr %s non-ptr", x.Op)
 		}
@@ -728,6 +737,9 @@ func (ev *Env) call(x *ECall) SVal {
 	case "fresh":
 		v := ev.eval(x.Args[0])
 		s, ok := v.(SSlice)
+		if p, isP := v.(SPtr); isP {
+			s, ok = SSlice{Reg: p.Ref}, true // an object allocated by this call
+		}
 		if !ok || s.Reg == nil {
 			sfail("fresh(slice)")
 		}
@@ -738,7 +750,20 @@ func (ev *Env) call(x *ECall) SVal {
 		if base.alloc == nil {
 			return SBool{True} // contract mentioned inside a lemma: no allocation state
 		}
-		return SBool{BVCmp("bvuge", s.Reg, base.alloc)}
+		res := BVCmp("bvuge", s.Reg, base.alloc)
+		if p, isP := v.(SPtr); isP && p.Ty != nil && p.Ty.Named != nil {
+			// arrays embedded in a fresh object are fresh storage as well
+			if sd, ok := p.Ty.Named.Underlying().(*types.Struct); ok {
+				for f := 0; f < sd.NumFields(); f++ {
+					if tyFromGo(sd.Field(f).Type()).K == TArray {
+						if pa, ok := loadField(ev.st, p.Ty.Named, f, p.Ref).(PArr); ok {
+							res = And(res, BVCmp("bvuge", pa.Reg, base.alloc))
+						}
+					}
+				}
+			}
+		}
+		return SBool{res}
 	case "allocated":
 		// the slice's region was allocated before the current program point
 		v := ev.eval(x.Args[0])
